@@ -10,8 +10,7 @@ the statement is silent or can be read two ways are accepted under every reading
 
 * duplicates under match type +-1: any position holding the extreme admissible value;
 * blank cells in the data: never a match (Excel), or "a blank is the zero of the lookup value's
-  type" (0 / "" / FALSE; pycel's ExcelCmp) - the second reading only where the data is still
-  sorted under it;
+  type" (0 / "" / FALSE) - both readings everywhere, also for the blanks at the ends of sorted data;
 * a tilde in a text lookup value that is not followed by ? or * (followed by another character,
   by another tilde, or at the end): the tilde is literal, or it escapes the next character;
 * a blank cell delivered by VLOOKUP/HLOOKUP/LOOKUP/INDEX: None or 0;
@@ -242,10 +241,9 @@ def match_approx(v, vec, mt):
         return False, set()
     acc = _scan_approx(v, vec, mt)
     if any(x is None for x in vec):
+        # second reading: a blank at either end holds the zero of v's type (wherever it stands)
         z = ZERO[k]
-        filled = [z if x is None else x for x in vec]
-        if is_sorted(filled, mt):
-            acc |= _scan_approx(v, filled, mt)
+        acc |= _scan_approx(v, [z if x is None else x for x in vec], mt)
     return True, acc
 
 
